@@ -181,7 +181,7 @@ impl HalfConnection {
         self.rto_ms = rto_ms;
 
         // Forget old frame data
-        self.frame_queue.forget_frames(now_ms.saturating_sub(rtt_ms*4), self.send_rate_comp.rtt_ms());
+        self.frame_queue.forget_frames(now_ms.saturating_sub(rto_ms.max(rtt_ms*4)), self.send_rate_comp.rtt_ms());
 
         // Fill flush allocation
         self.fill_flush_alloc(now);
